@@ -269,7 +269,7 @@ def execute_enum(record, trace=False):
         run_log = s.k.log
         events = s.k.seq
         sim_seconds = (s.k.now_us - 1_700_000_000_000_000) / 1e6
-        run_stats = dict(s.stats)
+        run_stats = s.full_stats()
     finally:
         s.close()
     # choose which states to recover
